@@ -64,7 +64,8 @@ def run_check(pid, cfg, tier, seed, work, t0):
     # ---- 1. proofs
     theorems = cfg.get("theorems", [])
     modules = cfg.get("modules", [])
-    ok, log = C.lean_build()
+    # only what this property needs: a broken obligation or theorem of another property must not raise an alarm here
+    ok, log = C.lean_build(tuple(modules) + ("driver",))
     obligations = len(theorems)
     discharged = 0
     audit = {}
